@@ -45,7 +45,7 @@ struct ModuleRegistrar { explicit ModuleRegistrar(const PropModule &m) { registe
 // run a plan in a forked child (crash-isolated). Returns false if the child died; then `crash` holds the
 // classified sanitizer/signal report.
 struct ChildOutcome { bool ok = false; RunResult res; std::string crash_kind, crash_func, crash_text; int status = 0; bool timeout = false; };
-ChildOutcome run_in_child(const PropModule &m, const Plan &p, int timeout_s = 60);
+ChildOutcome run_in_child(const PropModule &m, const Plan &p, int timeout_s = 30);
 
 // UBSan reports (kind@file:line) recorded since the last call (empty in builds without UBSan)
 std::vector<std::string> ubsan_take_reports();
